@@ -1,6 +1,101 @@
 import CkbVerif.Driver.Util
+import CkbVerif.Model.Cycles
+
+/-! Line-protocol driver for C05 (protocol: harness/n05/src/c05.rs). -/
 namespace CkbVerif.Driver.C05
-def main (_args : List String) : IO UInt32 := do
-  IO.eprintln "C05: model driver not implemented"
-  return 2
+open CkbVerif.Driver CkbVerif.Cycles
+
+structure St where
+  /-- (cost, exit code) per script group, measured by the harness with unlimited one-shot runs -/
+  groups : List (Nat × Int) := []
+
+def parseInt? (s : String) : Option Int :=
+  if s.startsWith "-" then (parseNat? (s.drop 1).toString).map (fun n => - (n : Int))
+  else (parseNat? s).map (fun n => (n : Int))
+
+def parseGroups? (s : String) : Option (List (Nat × Int)) :=
+  if s = "-" then some [] else
+  (s.splitOn ",").mapM fun it =>
+    match it.splitOn ":" with
+    | [a, b] => do
+      let c ← parseNat? a
+      let e ← parseInt? b
+      pure (c, e)
+    | _ => none
+
+def showRes : Except Err Nat → String
+  | .ok n => s!"ok {n}"
+  | .error (.exceeded _) => "exceeded"
+  | .error (.validation c) => s!"fail {c}"
+  | .error .other => "other"
+  | .error .overflow => "overflow"
+
+/-- traces: every cycle a split point for small groups, one step otherwise; group `idx` split at `p` -/
+def mkGroups (gs : List (Nat × Int)) (split : Option (Nat × Nat)) : List Group :=
+  (List.range gs.length).zip gs |>.map fun (i, (c, e)) =>
+    match split with
+    | some (idx, p) =>
+      if i = idx ∧ 0 < p ∧ p < c then ⟨[p, c - p], e⟩ else ⟨[c], e⟩
+    | none => if c ≤ 4096 then ⟨List.replicate c 1, e⟩ else ⟨[c], e⟩
+
+/-- drive the resumable API to completion: first limit, then `resume_from_state` with the following
+limits (the last one repeated) -/
+def driveChunks (gs : List Group) : List Nat → Nat → Option TxState → Except Err Nat
+  | _, 0, _ => .error .other
+  | limits, fuel + 1, st =>
+    let l := limits.headD 1
+    let more := if limits.length > 1 then limits.tail else limits
+    let r := match st with
+      | none => resumableVerify gs l
+      | some s => resumeFromState gs s l
+    match r with
+    | .error e => .error e
+    | .ok (.completed n) => .ok n
+    | .ok (.suspended s) => driveChunks gs more fuel (some s)
+
+def step (s : St) (ts : List String) : St × String :=
+  match ts with
+  | ["prog", g] =>
+    match parseGroups? g with
+    | some g => ({ groups := g }, "ok")
+    | none => (s, "bad-op")
+  | ["verify", b] =>
+    match parseNat? b with
+    | some b => (s, showRes (verify (mkGroups s.groups (some (0, 0))) b))
+    | none => (s, "bad-op")
+  | ["chunks", l] =>
+    match parseNatList? l with
+    | some ls =>
+      let small := s.groups.all (fun g => g.1 ≤ 4096)
+      if small then
+        let gs := mkGroups s.groups none
+        let total := (s.groups.map (·.1)).sum
+        (s, showRes (driveChunks gs ls (total + s.groups.length + ls.length + 8) none))
+      else
+        -- `chunked_eq_unchunked`: a run driven to completion gives the unlimited one-shot result
+        (s, showRes (verify (mkGroups s.groups (some (0, 0))) (U64 - 1)))
+    | none => (s, "bad-op")
+  | ["complete", l, b, idx, p] =>
+    match parseNats? [l, b, idx, p] with
+    | some [l, b, idx, p] =>
+      let gs := mkGroups s.groups (some (idx, p))
+      match resumableVerify gs l with
+      | .error e => (s, showRes (.error e))
+      | .ok (.completed n) => (s, s!"completed-early {n}")
+      | .ok (.suspended st) => (s, showRes (complete gs st b))
+    | _ => (s, "bad-op")
+  | ["signal", b, idx, p] =>
+    match parseNats? [b, idx, p] with
+    | some [b, idx, p] =>
+      let gs := mkGroups s.groups (some (idx, p))
+      -- cycles of the groups before `idx` do not count for the pause point inside group `idx`
+      let sched := (List.range gs.length).zip gs |>.map fun (i, g) =>
+        (g, if i = idx then [some p] else ([] : List (Option Nat)))
+      (s, showRes (signalVerify b sched 0))
+    | _ => (s, "bad-op")
+  | _ => (s, "bad-op")
+
+def main (_args : List String) : IO UInt32 :=
+  runLines ({} : St) step
+
 end CkbVerif.Driver.C05
